@@ -34,4 +34,6 @@ for prop, commit, name in rows:
     sys.stdout.flush()
     subprocess.run(["git", "-C", "/repo", "checkout", "--", "."], check=True)
     subprocess.run(["git", "-C", "/repo", "clean", "-fdq", "src"], check=False)
+subprocess.run(["git", "-C", "/verif", "checkout", "-q", "--", "evidence"])  # evidence written while /repo was patched is not kept
+subprocess.run(["python3", "/verif/tools/gen_consts.py"], stdout=subprocess.DEVNULL)
 sys.exit(1 if bad else 0)
